@@ -7,4 +7,7 @@ import Peppi.Props.C16
 #print axioms Peppi.Props.C16.pEntries_json
 #print axioms Peppi.Props.C16.parseMeta_json
 #print axioms Peppi.Props.C16.slppRead_written_json
+#print axioms Peppi.Props.C16.C16_write_read
+#print axioms Peppi.Props.C16.C16_read_write
+#print axioms Peppi.Props.C16.encKVs_inj
 #print axioms Peppi.Props.C16.writeMap_enc
